@@ -206,7 +206,13 @@ func runC10(t *Trace, r *Rng, tier string, _ []string) {
 			sort.Slice(matched, func(i, j int) bool { return matched[i].id < matched[j].id })
 
 			req := bleve.NewSearchRequestOptions(q, r.Intn(6), r.Intn(5), false)
-			switch r.Intn(5) {
+			switch r.Intn(7) {
+			case 5: // two sort keys over one field, which is also a facet field
+				req.SortBy([]string{"price", "-price", "_id"})
+				sortedOnFacetField++
+			case 6:
+				req.SortBy([]string{"-tags", "when", "tags"})
+				sortedOnFacetField++
 			case 0:
 				req.SortBy([]string{"-_score", "_id"})
 			case 1:
